@@ -157,11 +157,15 @@ def e2e_config(n: int, fmap: tuple[int, ...], weights: list[float]) -> dict[str,
     return {
         "variables": {"initial_values": [0.0]},
         "realizations": {"weights": weights, "realization_min_success": 0},
-        "objectives": {"weights": [1.0, 3.0], "realization_filters": list(fmap[:2])},
+        # two (identical) estimators with a crossed index map: the weight row of a function is found by its own index,
+        # not by its position within the group of functions that share an estimator
+        "function_estimators": [{"method": "mean"}, {"method": "mean"}],
+        "objectives": {"weights": [1.0, 3.0], "realization_filters": list(fmap[:2]), "function_estimators": [1, 0]},
         "nonlinear_constraints": {
             "lower_bounds": [0.0, -np.inf],
             "upper_bounds": [np.inf, 4.0],
             "realization_filters": list(fmap[2:]),
+            "function_estimators": [0, 1],
         },
         "realization_filters": [
             {"method": "sort-objective", "options": {"sort": [0], "first": f0, "last": l0}},
@@ -181,7 +185,7 @@ def e2e_table(n: int, perm: tuple[int, ...], seed: int) -> np.ndarray:
     return np.stack([col0, col1, col2, col3], axis=1)
 
 
-def judge_e2e(n: int, fmap: tuple[int, ...], perm: tuple[int, ...], mask: int, wname: str, seed: int) -> Judgement:
+def judge_e2e(n: int, fmap: tuple[int, ...], perm: tuple[int, ...], mask: int, wname: str, seed: int, nan_mode: str = "all") -> Judgement:
     from ropt.ensemble_evaluator import EnsembleEvaluator
     from ropt.enums import OptimizerExitCode
     from ropt.exceptions import OptimizationAborted
@@ -201,6 +205,11 @@ def judge_e2e(n: int, fmap: tuple[int, ...], perm: tuple[int, ...], mask: int, w
     expect_abort = any(not np.any(fw[f] > 0) for f in used)
 
     def fn(x: np.ndarray, r: int) -> np.ndarray:
+        if nan_mode == "constraint-only" and failed[r]:
+            # a realization fails as a whole when ANY of its values is NaN - here only constraint 0, which no filter ranks
+            values = table[r].copy()
+            values[2] = np.nan
+            return values
         return np.where(failed[r], np.nan, table[r])
 
     manager, _ = make_manager()
@@ -297,9 +306,11 @@ def run_shard(shard: dict[str, Any]) -> core.ShardResult:
             fmap = tuple(fmap)
             for perm in itertools.permutations(range(n)):
                 for mask in range(2**n):
-                    j = judge_e2e(n, fmap, perm, mask, wname, seed)
-                    rec.add(("e", n, fmap, perm, mask, wname),
-                            {"kind": "e2e", "n": n, "fmap": list(fmap), "perm": list(perm), "mask": mask, "weights": wname, "seed": seed}, j)
+                    for nan_mode in (("all", "constraint-only") if mask else ("all",)):
+                        j = judge_e2e(n, fmap, perm, mask, wname, seed, nan_mode)
+                        rec.add(("e", n, fmap, perm, mask, wname, nan_mode),
+                                {"kind": "e2e", "n": n, "fmap": list(fmap), "perm": list(perm), "mask": mask, "weights": wname, "seed": seed,
+                                 "nan_mode": nan_mode}, j)
         return rec.finish()
     n, flavour = shard["n"], shard["flavour"]
     table = key_table(n, seed)
@@ -330,7 +341,8 @@ def run_case(case: dict[str, Any]) -> Judgement:
     if case["kind"] == "window":
         return judge_window(case["flavour"], case["n"], case["first"], case["last"])
     if case["kind"] == "e2e":
-        return judge_e2e(case["n"], tuple(case["fmap"]), tuple(case["perm"]), case["mask"], case["weights"], case["seed"])
+        return judge_e2e(case["n"], tuple(case["fmap"]), tuple(case["perm"]), case["mask"], case["weights"], case["seed"],
+                         case.get("nan_mode", "all"))
     n = case["n"]
     config = validate(build_config(case["flavour"], n, weight_vectors(n)[case["weights"]], case["first"], case["last"]))
     manager, _ = make_manager()
